@@ -184,12 +184,48 @@ def handleInc (f : List String) : String × String × String :=
     | _, _ => ("bad-input", "-", "-")
   | _ => ("bad-fields", "-", "-")
 
+/-- `C14.alias`: the observation after the caller scribbled over every accessor result documented as a copy
+must be what the (immutable) model computes from the descriptor, and must equal the observation before. -/
+def handleAlias (f : List String) : String × String × String :=
+  match f with
+  | [ds, pidsS, ks, before, after] =>
+    match parsePDesc ds, (pidsS.splitOn ",").mapM String.toInt?, natList? ks with
+    | some d, some pids, some keys =>
+      let all := d.tokenParts
+      let per := pids.map fun p =>
+        let m := rangesForPartition d p
+        let bits := match m with | .ok tr => bitsOf tr keys includesKey | .error _ => "-"
+        let owners := "+".intercalate ((d.owners.filter (·.partition == p)).map (·.id))
+        toString p ++ "=" ++ showRes m ++ "/" ++ bits ++ "/" ++ owners
+      let lookups := ",".intercalate (keys.map fun k => showOwner (activeForOf all k))
+      let ids := fun (l : List Part) => "+".intercalate (l.map fun p => toString p.id)
+      let model := ";".intercalate per ++ "|" ++ lookups ++ "|" ++ ids d.parts ++ "|" ++ ids (d.parts.filter (·.state == 2))
+      let diff := if model == after then "-" else "model=" ++ model
+      let judge := if before == after then [] else ["accessor-result-aliases-ring-state"]
+      (diff, joinReasons judge, s!"alias parts={bucket d.parts.length} ring={bucket all.length} owners={bucket d.owners.length}")
+    | _, _, _ => ("bad-input", "-", "-")
+  | _ => ("bad-fields", "-", "-")
+
+def handleIalias (f : List String) : String × String × String :=
+  match f with
+  | [ds, cfg, _, before, after] =>
+    match parseDesc ds, cfg.splitOn "," with
+    | some d, [za, rf] =>
+      let model := ";".intercalate (d.map fun i => i.id ++ "=" ++ showRes (rangesForInstance d (za == "1") (rf.toNat?.getD 0) i.id))
+      let diff := if model == after then "-" else "model=" ++ model
+      let judge := if before == after then [] else ["accessor-result-aliases-ring-state"]
+      (diff, joinReasons judge, s!"ialias inst={bucket d.length}")
+    | _, _ => ("bad-input", "-", "-")
+  | _ => ("bad-fields", "-", "-")
+
 def handle (cmd : String) (f : List String) : String × String × String :=
   if cmd == "C14.inst" || cmd == "C14.sinst" then handleInst f
   else if cmd == "C14.tile" || cmd == "C14.stile" then handleTile f
   else if cmd == "C14.part" then handlePart f
   else if cmd == "C14.ptile" then handlePtile f
   else if cmd == "C14.inc" then handleInc f
+  else if cmd == "C14.alias" then handleAlias f
+  else if cmd == "C14.ialias" then handleIalias f
   else ("unknown-cmd", "-", "-")
 
 end OracleC14
